@@ -248,6 +248,49 @@ def repoint_write_log(case, run):
     return out, repoints
 
 
+MECH_F33 = "map-output-key-set-shows-unpublished-key-without-added-delta"
+
+
+def f33_witness(name):
+    """Constructed witness of the known finding F33: the KEY SET of a map_ output (keys_) while a child's result is not valid yet.
+    The mapped function delays its element by three steps, so every new key lives for three cycles before its element is
+    published. Read through keys_() the key is in the set's VALUE from the cycle the child is created, with an EMPTY added delta,
+    and the set does not tick when the element is published (the dictionary itself reports the key as added only then)."""
+    from .prog import Case
+    c = Case(name, 0, 20)
+    c.cscripts[1] = ["1|[1]=100", "3|[2]=200", "8|[1]=101", "12|x[1]"]
+    c.graphs["fn0"] = [S("e", "pass", "p0", uid=90), S("dl", "delay", "e", uid=91, k=3), S("", "RET", "dl")]
+    c.graphs["main"] = [S("d", "csrc", shape="tsd", uid=1), S("m", "map", "d", fn="fn1:0"), S("ks", "nkeys", "m", uid=30, nest=0),
+                        S("", "cmirror", "m", uid=11)]
+    c.meta.update(kind="f33_witness")
+    return c
+
+
+def check_f33(case, tr):
+    res = Result(signature=case.text().split("\n", 1)[1])
+    run = tr.runs[0]
+    if tr.build_error or run.error:
+        res.violations.append(Violation(f"build/run failed: {tr.build_error or run.error}"))
+        return res
+    prev = set()
+    for t, d, _ in parse_dumps(run).get(30, []):
+        vals, add, rem = set(d["vals"]), set(d["add"]), set(d["rem"])
+        if (prev | add) - rem != vals:
+            ghost = sorted(vals - ((prev | add) - rem))
+            if ghost and not (((prev | add) - rem) - vals):
+                res.violations.append(Violation(f"t={t}: the key set of a map_ output read through keys_() holds {sorted(vals)} after a tick whose "
+                                                f"delta is +{sorted(add)} -{sorted(rem)} on {sorted(prev)}: keys {ghost} (children whose result is "
+                                                f"not valid yet) appear without ever being reported as added", MECH_F33))
+            else:
+                res.violations.append(Violation(f"t={t}: key set of the map output {sorted(vals)} != previous {sorted(prev)} + added {sorted(add)} - "
+                                                f"removed {sorted(rem)}"))
+            break
+        prev = vals
+    res.counters = {"map_key_set_projection_ticks": len(parse_dumps(run).get(30, []))}
+    res.nontrivial = True
+    return res
+
+
 def gen_nested_map_case(rng, name):
     """A map_ whose instances each run an INNER map_ over a shared dictionary handed to them as a whole: an inner map is created
     whenever an outer key appears (late, or again after a removal) and then has to pick up every key the shared dictionary
@@ -343,6 +386,7 @@ def generate(rng, tier, seed):
     cases = [gen_case10(rng, f"c10_{seed}_{k}", k) for k in range(n)]
     cases += [gen_nested_map_case(rng, f"c10n_{seed}_{k}") for k in range(n // 5)]
     cases += [gen_repoint_map_case(rng, f"c10r_{seed}_{k}", k) for k in range(n // 4)]
+    cases.append(f33_witness(f"c10_{seed}_witnessF33"))
     # failure isolation between keys: the keyed-map fault pairs of C15 (fault-free twin + per-key captured faults)
     from .c15 import gen_map_pair
     k = got = 0
@@ -476,6 +520,8 @@ def check(case, tr):
         return check_map(case, tr)
     if case.meta.get("kind") == "nested_map":
         return check_nested_map(case, tr)
+    if case.meta.get("kind") == "f33_witness":
+        return check_f33(case, tr)
     run = tr.runs[0]
     if run.error:
         res.violations.append(Violation(f"run failed: {run.error[:300]}"))
